@@ -231,6 +231,26 @@ def czl(xs):
     return "[" + "; ".join(cz(x) for x in xs) + "]"
 
 
+def czl_rle(xs, minrun=48):
+    """list literal with long runs written as `repeat v (Z.to_nat n)` (a Gallina
+    expression of type list Z; keeps case files small for large zero-filled arrays)"""
+    parts, cur, i, n = [], [], 0, len(xs)
+    while i < n:
+        j = i
+        while j < n and xs[j] == xs[i]:
+            j += 1
+        if j - i >= minrun:
+            if cur:
+                parts.append(czl(cur)); cur = []
+            parts.append(f"repeat {cz(xs[i])} (Z.to_nat {j - i})")
+        else:
+            cur += xs[i:j]
+        i = j
+    if cur or not parts:
+        parts.append(czl(cur))
+    return "(" + " ++ ".join(parts) + ")"
+
+
 def czll(xss):
     return "[" + "; ".join(czl(x) for x in xss) + "]"
 
@@ -276,6 +296,8 @@ class Ctx:
         self.rng = random.Random(seed * 1000003 + int(pid[1:]))
         self.t0 = time.time()
         self.work = Path(tempfile.mkdtemp(prefix=f'verif_{pid}_'))
+        for old in (OUT / 'replays').glob(f'{pid}_*.json') if (OUT / 'replays').exists() else []:
+            old.unlink()
         self.dist = Counter()
         self.evaluations = 0
         self.distinct = set()
